@@ -10,6 +10,7 @@ CONSTANTS
   AllowNil = TRUE
   ChainOnly = FALSE
   WriteNewest = FALSE
+  AllowReduce = FALSE
   AllowCopy = FALSE
   EarlyStop = TRUE
   Emit = TRUE
